@@ -301,6 +301,20 @@ def rule_errfirst(ctx):
                     isinstance(b, ast.Return) and isinstance(
                         b.value, ast.Name) for b in s.body):
                 ok = True
+    # ... or the guard-clause form: `if not isinstance(v, XlError): continue`
+    # followed by `return v`
+    from ..util import path_conditions
+    for lp in loops:
+        it = norm_src(lp.iter)
+        if 'reversed' in it or 'sorted' in it or '[::-1]' in it:
+            continue
+        for s in ast.walk(lp):
+            if isinstance(s, ast.Return) and isinstance(s.value, ast.Name):
+                for t, pol in path_conditions(ge, s):
+                    if pol and 'XlError' in norm_src(t) and isinstance(
+                            t, ast.Call) and call_name(t) == 'isinstance' and \
+                            t.args and norm_src(t.args[0]) == s.value.id:
+                        ok = True
     # ... or `next((v for v in <in order> if isinstance(v, XlError)), None)`
     for n in own_nodes(ge):
         if isinstance(n, ast.Call) and isinstance(n.func, ast.Name) and \
@@ -594,9 +608,10 @@ def rule_pow(ctx):
 
 
 def run(ctx):
+    S = ctx.soft
     from .common import rule_memo, nomut_for
-    ops = list(ctx.registry.operators.values())
-    return [rule_optable(ctx), rule_errfirst(ctx), rule_rank(ctx),
-            rule_funnel(ctx), rule_pow(ctx),
-            rule_memo(ctx, 'C02', 'C02.memo', ops),
-            nomut_for(ctx, 'C02', 'C02.nomut', ops, floor=20)]
+    ops = S(list, ctx.registry.operators.values())
+    return [S(rule_optable, ctx), S(rule_errfirst, ctx), S(rule_rank, ctx),
+            S(rule_funnel, ctx), S(rule_pow, ctx),
+            S(rule_memo, ctx, 'C02', 'C02.memo', ops),
+            S(nomut_for, ctx, 'C02', 'C02.nomut', ops, floor=20)]
